@@ -21,11 +21,13 @@ RULE = ("BFS over histories of request(side, will|wont|do|dont, option) / delive
         "enableLocal/enableRemote policy accepts exactly the options the side may itself request (policy pairs: every combination of "
         "{accept-all, accept-none, local-only, remote-only} for one option; all/all, all/none, disjoint and local/remote-split policies for "
         "two options). A request that is refused on the spot (AlreadyNegotiating/AlreadyEnabled/AlreadyDisabled) changes nothing and "
-        "merges with its source state, so for one option the search runs to a fixpoint over an UNBOUNDED number of requests; for two "
-        "options the number of effective requests is bounded. non-trivial = distinct canonical states with a message in flight "
+        "merges with its source state, so the search runs to a fixpoint over an UNBOUNDED number of requests (quick tier: <= 4 "
+        "effective requests for the largest two-option configuration). non-trivial = distinct canonical states with a message in flight "
         "while a request is pending, i.e. genuine interleavings")
-BOUNDS = {"quick": "1 option: fixpoint (unbounded requests) for 16 policy pairs; 2 options: <= 4 effective requests, all deliveries, 5 policy pairs",
-          "thorough": "1 option: fixpoint; 2 options: <= 6 effective requests (all/all) and fixpoint for the other policy pairs"}
+BOUNDS = {"quick": "1 option: fixpoint (unbounded requests) for 16 policy pairs; 2 options: fixpoint for 4 restricted policy pairs, "
+                   "<= 4 effective requests (all deliveries) when both sides accept everything",
+          "thorough": "fixpoint (unbounded number of requests) for every configuration, including 2 options with both sides accepting "
+                      "everything (28880 canonical states, depth 20)"}
 ASSUMPTIONS = [
     "channels are reliable FIFO per direction and carry whole 3-byte negotiation commands (segmentation is C38's subject)",
     "canonical state = per side and option (us.state, us.negotiating, him.state, him.negotiating, onResult set?) read from the documented "
@@ -34,8 +36,8 @@ ASSUMPTIONS = [
     "'negotiation loop' = a cycle among canonical states using delivery transitions only; 'diverges' = more than 6 messages per option in flight in one direction "
     "(a correct endpoint has at most one outstanding request per option and answers each message at most once)",
 ]
-MIN = {"quick": {"states": 2000, "nontrivial": 1000, "outcomes": 6, "transitions": 10000},
-       "thorough": {"states": 5000, "nontrivial": 2500, "outcomes": 6, "transitions": 30000}}
+MIN = {"quick": {"states": 7000, "nontrivial": 7000, "outcomes": 10, "transitions": 40000},
+       "thorough": {"states": 22000, "nontrivial": 21000, "outcomes": 10, "transitions": 380000}}
 
 OPTS = [b"\x01", b"\x03"]
 KINDS = ["will", "wont", "do", "dont"]
@@ -255,9 +257,9 @@ def configs(tier):
            (["local", "local"], ["remote", "remote"]), (["all", "local"], ["remote", "all"])]
     for i, (a, b) in enumerate(two):
         if tier == "quick":
-            out.append({"nopt": 2, "pol": [a, b], "budget": 4, "depth": 40})
+            out.append({"nopt": 2, "pol": [a, b], "budget": 4 if i == 0 else None, "depth": 40})
         else:
-            out.append({"nopt": 2, "pol": [a, b], "budget": 6 if i == 0 else None, "depth": 60})
+            out.append({"nopt": 2, "pol": [a, b], "budget": None, "depth": 80})
     return out
 
 
